@@ -83,6 +83,18 @@ Theorem done_enabled : forall cfg t0 evs c o g r t h,
 Proof. exact done_enabled_all. Qed.
 Print Assumptions done_enabled.
 
+(* stages_monotone: between two consecutive messages of a stream the stage
+   (QUEUED = 2, EXECUTING = 3, COMPLETED = 4) goes backwards only from
+   EXECUTING to QUEUED -- the documented fall-back when a failed action is
+   retried on the largest size class. *)
+Theorem stages_monotone : forall cfg t0 evs c,
+  fresh_calls [] evs ->
+  forall pre n1 s1 d1 n2 s2 d2 post,
+    call_trace c (snd (run (init cfg t0) evs)) = pre ++ OMsg c n1 s1 d1 :: OMsg c n2 s2 d2 :: post ->
+    (s2 < s1)%N -> s1 = 3%N /\ s2 = 2%N.
+Proof. exact stages_monotone_all. Qed.
+Print Assumptions stages_monotone.
+
 (* One iteration of operation.waitExecution: if the task has a response the
    message sent is the done message carrying exactly that response and the
    stream moves to its return section with code OK ... *)
